@@ -81,13 +81,13 @@ fn o02a_write_varint_layout() {
 //@ props: C02 C13 C18
 //@ kind: complete
 //@ functions: varint::read_varint
-//@ claim: read_varint on [n] ++ big_endian(v,n) built from the format spec returns (v, n+1) and consumes exactly n+1 bytes; all u64
+//@ claim: read_varint on [n] ++ big_endian(v,n) built from the format spec, followed by ARBITRARY bytes, returns (v, n+1) and consumes exactly n+1 bytes; all u64
 #[kani::proof]
 #[kani::unwind(10)]
 fn o02a_read_varint_inverts_spec() {
     let v: u64 = kani::any();
     let nb = spec_nbytes(v);
-    let mut buf = [0x5Au8; 10];
+    let mut buf: [u8; 10] = kani::any(); // bytes after the encoding are arbitrary
     buf[0] = nb as u8;
     let mut i = 0usize;
     while i < 8 {
